@@ -22,7 +22,7 @@ def selftest(tier):
 
 
 def obligations(tier, seed):
-    t = 450 if tier == 'quick' else 1200
+    t = 240 if tier == 'quick' else 1200
     return [
         dict(name='C03.rename_binding', fn='rename_binding', shards=plan(skeletons.TEMPLATES, tier, seed, 99, quick_all_lengths=True, pin_c_quick=True), timeout=t,
              bounds='see META; quick = every skeleton with name lengths 1 and 3 (option combination rotates with the seed)', public_replay='public_rename_binding'),
